@@ -15,14 +15,19 @@ import (
 	"net/http"
 	"net/http/httptest"
 	"sort"
+	"strconv"
 	"strings"
 	"sync/atomic"
 
+	"github.com/go-openapi/analysis"
 	oaerrors "github.com/go-openapi/errors"
+	"github.com/go-openapi/loads"
 	"github.com/go-openapi/runtime"
 	"github.com/go-openapi/runtime/middleware"
 	"github.com/go-openapi/runtime/middleware/untyped"
 	"github.com/go-openapi/runtime/security"
+	"github.com/go-openapi/spec"
+	"github.com/go-openapi/strfmt"
 
 	"verif/engine/apib"
 )
@@ -115,26 +120,90 @@ func rawAuth(s int) runtime.Authenticator {
 	})
 }
 
-func realAuth(s int) runtime.Authenticator {
+// realAuth builds scheme s from the exported constructors of package security; the mode
+// selects the constructor family (context-carrying or plain callbacks; header or query API key;
+// default or explicit realm). Plain callbacks do not see the request, so they cannot log the call.
+func realAuth(mode uint8, s int) runtime.Authenticator {
+	ctxFlavour := mode == modeReal || mode == modeRealAlt
+	alt := mode == modeRealAlt || mode == modeRealAltPlain
 	switch s {
 	case 0:
-		return security.APIKeyAuthCtx("X-K1", "header", func(ctx context.Context, token string) (context.Context, interface{}, error) {
-			stateOf(ctx).authCalls++
+		name, in := "X-K1", "header"
+		if alt {
+			name, in = "k1key", "query"
+		}
+		if ctxFlavour {
+			return security.APIKeyAuthCtx(name, in, func(ctx context.Context, token string) (context.Context, interface{}, error) {
+				stateOf(ctx).authCalls++
+				_, p, err := decide(0, token, nil)
+				return ctx, p, err
+			})
+		}
+		return security.APIKeyAuth(name, in, func(token string) (interface{}, error) {
 			_, p, err := decide(0, token, nil)
-			return ctx, p, err
+			return p, err
 		})
 	case 1:
-		return security.BasicAuthCtx(func(ctx context.Context, _ string, pass string) (context.Context, interface{}, error) {
-			stateOf(ctx).authCalls++
+		switch {
+		case ctxFlavour && alt:
+			return security.BasicAuthRealmCtx("c02", func(ctx context.Context, _ string, pass string) (context.Context, interface{}, error) {
+				stateOf(ctx).authCalls++
+				_, p, err := decide(1, pass, nil)
+				return ctx, p, err
+			})
+		case ctxFlavour:
+			return security.BasicAuthCtx(func(ctx context.Context, _ string, pass string) (context.Context, interface{}, error) {
+				stateOf(ctx).authCalls++
+				_, p, err := decide(1, pass, nil)
+				return ctx, p, err
+			})
+		case alt:
+			return security.BasicAuthRealm("c02", func(_ string, pass string) (interface{}, error) {
+				_, p, err := decide(1, pass, nil)
+				return p, err
+			})
+		}
+		return security.BasicAuth(func(_ string, pass string) (interface{}, error) {
 			_, p, err := decide(1, pass, nil)
+			return p, err
+		})
+	}
+	if ctxFlavour {
+		return security.BearerAuthCtx("k3", func(ctx context.Context, token string, scopes []string) (context.Context, interface{}, error) {
+			stateOf(ctx).authCalls++
+			_, p, err := decide(2, token, scopes)
 			return ctx, p, err
 		})
 	}
-	return security.BearerAuthCtx("k3", func(ctx context.Context, token string, scopes []string) (context.Context, interface{}, error) {
-		stateOf(ctx).authCalls++
+	return security.BearerAuth("k3", func(token string, scopes []string) (interface{}, error) {
 		_, p, err := decide(2, token, scopes)
-		return ctx, p, err
+		return p, err
 	})
+}
+
+// wrappedAuth: the generic wrappers of package security around the scripted decision.
+func wrappedAuth(s int) runtime.Authenticator {
+	hdr := "X-Out-" + schemeName[s]
+	if s == 2 {
+		return security.ScopedAuthenticator(func(r *security.ScopedAuthRequest) (bool, interface{}, error) {
+			stateOf(r.Request.Context()).authCalls++
+			return decide(s, r.Request.Header.Get(hdr), r.RequiredScopes)
+		})
+	}
+	return security.HttpAuthenticator(func(r *http.Request) (bool, interface{}, error) {
+		stateOf(r.Context()).authCalls++
+		return decide(s, r.Header.Get(hdr), nil)
+	})
+}
+
+func authFor(mode uint8, s int) runtime.Authenticator {
+	switch mode {
+	case modeRaw:
+		return rawAuth(s)
+	case modeWrapped:
+		return wrappedAuth(s)
+	}
+	return realAuth(mode, s)
 }
 
 var errAzPlain = stderrors.New(tagName[tAzDeny])
@@ -242,6 +311,7 @@ type envKey struct {
 	decl, mode uint8
 	reg, undef uint8
 	az         bool
+	wiring     uint8
 }
 
 type env struct {
@@ -304,31 +374,64 @@ func buildEnv(key envKey, structs []structure) *env {
 		paths = append(paths, opPath(0), "/none")
 	}
 	doc := apib.MustLoad(sp)
-	api := untyped.NewAPI(doc)
-	api.RegisterConsumer("application/json", consumer)
-	for s := 0; s < nS; s++ {
-		if key.reg&(1<<uint(s)) != 0 {
-			if key.mode == modeReal {
-				api.RegisterAuth(schemeName[s], realAuth(s))
-			} else {
-				api.RegisterAuth(schemeName[s], rawAuth(s))
-			}
+	e.handlerCalls = make([]atomic.Int64, len(paths))
+	var az runtime.Authorizer
+	if key.az {
+		az = authorizer
+		if key.wiring == wAuthorized {
+			az = security.Authorized()
 		}
 	}
-	if key.az {
-		api.RegisterAuthorizer(authorizer)
+	if key.wiring == wTyped || key.wiring == wTypedRouter {
+		e.buildTyped(doc, paths, az)
+	} else {
+		api := untyped.NewAPI(doc)
+		api.RegisterConsumer("application/json", consumer)
+		api.ServeError = serveError
+		// the operation handlers are looked up by NewContext itself: they are always registered first
+		for i, p := range paths {
+			cnt := &e.handlerCalls[i]
+			api.RegisterOperation("POST", p, runtime.OperationHandlerFunc(func(interface{}) (interface{}, error) {
+				cnt.Add(1)
+				return nil, errRan
+			}))
+		}
+		registerSecurity := func() {
+			for s := 0; s < nS; s++ {
+				if key.reg&(1<<uint(s)) != 0 {
+					api.RegisterAuth(schemeName[s], authFor(key.mode, s))
+				}
+			}
+			if az != nil {
+				api.RegisterAuthorizer(az)
+			}
+		}
+		switch key.wiring {
+		case wLateRoutesHandler, wLateRapiDoc:
+			// security is registered after the context exists and before any handler or router is built
+			e.ctx = middleware.NewContext(doc, api, nil)
+			registerSecurity()
+			if key.wiring == wLateRoutesHandler {
+				e.h = e.ctx.RoutesHandler(nil)
+			} else {
+				e.h = e.ctx.APIHandlerRapiDoc(nil)
+			}
+		case wServe:
+			registerSecurity()
+			e.h = middleware.Serve(doc, api)
+		case wEarlySwaggerUI:
+			registerSecurity()
+			e.ctx = middleware.NewContext(doc, api, nil)
+			e.h = e.ctx.APIHandlerSwaggerUI(nil)
+		default:
+			registerSecurity()
+			e.ctx = middleware.NewContext(doc, api, nil)
+			e.h = e.ctx.APIHandler(nil)
+		}
 	}
-	api.ServeError = serveError
-	e.handlerCalls = make([]atomic.Int64, len(paths))
-	for i, p := range paths {
-		cnt := &e.handlerCalls[i]
-		api.RegisterOperation("POST", p, runtime.OperationHandlerFunc(func(interface{}) (interface{}, error) {
-			cnt.Add(1)
-			return nil, errRan
-		}))
+	if e.ctx == nil {
+		return e // no Context in hand (middleware.Serve): no route lookups, the order cannot be owned
 	}
-	e.ctx = middleware.NewContext(doc, api, nil)
-	e.h = e.ctx.APIHandler(nil)
 	e.bases = make([]*middleware.MatchedRoute, len(structs))
 	for i := range structs {
 		e.bases[i] = e.lookup(opPath(i))
@@ -439,13 +542,129 @@ func (e *env) setOrder(op int, k kase) bool {
 	return true
 }
 
+// ---- the typed flavour: a RoutableAPI of the harness and a handler written the way go-swagger generates them ----
+
+type typedAPI struct {
+	key      envKey
+	az       runtime.Authorizer
+	handlers map[string]http.Handler
+}
+
+func (t *typedAPI) HandlerFor(method, path string) (http.Handler, bool) {
+	if strings.ToUpper(method) != "POST" {
+		return nil, false
+	}
+	h, ok := t.handlers[path]
+	return h, ok
+}
+func (t *typedAPI) ServeErrorFor(string) func(http.ResponseWriter, *http.Request, error) {
+	return serveError
+}
+func (t *typedAPI) ConsumersFor(mediaTypes []string) map[string]runtime.Consumer {
+	out := map[string]runtime.Consumer{}
+	for _, mt := range mediaTypes {
+		if mt == "application/json" {
+			out[mt] = consumer
+		}
+	}
+	return out
+}
+func (t *typedAPI) ProducersFor(mediaTypes []string) map[string]runtime.Producer {
+	out := map[string]runtime.Producer{}
+	for _, mt := range mediaTypes {
+		if mt == "application/json" {
+			out[mt] = runtime.JSONProducer()
+		}
+	}
+	return out
+}
+func (t *typedAPI) AuthenticatorsFor(schemes map[string]spec.SecurityScheme) map[string]runtime.Authenticator {
+	out := map[string]runtime.Authenticator{}
+	for s := 0; s < nS; s++ {
+		if _, ok := schemes[schemeName[s]]; ok && t.key.reg&(1<<uint(s)) != 0 {
+			out[schemeName[s]] = authFor(t.key.mode, s)
+		}
+	}
+	return out
+}
+func (t *typedAPI) Authorizer() runtime.Authorizer { return t.az }
+func (t *typedAPI) Formats() strfmt.Registry       { return strfmt.Default }
+func (t *typedAPI) DefaultProduces() string        { return "application/json" }
+func (t *typedAPI) DefaultConsumes() string        { return "application/json" }
+
+// typedParams binds what the operation declares: the integer query parameter q and the JSON body.
+type typedParams struct {
+	Q    int64
+	Body map[string]interface{}
+}
+
+func (p *typedParams) BindRequest(r *http.Request, route *middleware.MatchedRoute) error {
+	q := r.URL.Query().Get("q")
+	v, err := strconv.ParseInt(q, 10, 64)
+	if err != nil {
+		return oaerrors.InvalidType("q", "query", "int64", q)
+	}
+	p.Q = v
+	if runtime.HasBody(r) {
+		if err := route.Consumer.Consume(r.Body, &p.Body); err != nil {
+			return oaerrors.NewParseError("body", "body", "", err)
+		}
+	}
+	return nil
+}
+
+func (e *env) buildTyped(doc *loads.Document, paths []string, az runtime.Authorizer) {
+	t := &typedAPI{key: e.key, az: az, handlers: map[string]http.Handler{}}
+	for i, p := range paths {
+		cnt := &e.handlerCalls[i]
+		t.handlers[p] = http.HandlerFunc(func(rw http.ResponseWriter, r *http.Request) {
+			// the shape of a go-swagger generated operation: route, authorize, bind, handle(params, principal)
+			ctx := e.ctx
+			route, rCtx, _ := ctx.RouteInfo(r)
+			if rCtx != nil {
+				*r = *rCtx
+			}
+			principal, aCtx, err := ctx.Authorize(r, route)
+			if err != nil {
+				ctx.Respond(rw, r, route.Produces, route, err)
+				return
+			}
+			if aCtx != nil {
+				*r = *aCtx
+			}
+			var params typedParams
+			if err := ctx.BindValidRequest(r, route, &params); err != nil {
+				ctx.Respond(rw, r, route.Produces, route, err)
+				return
+			}
+			// the handler proper: it is handed the principal and may read the request context
+			cnt.Add(1)
+			st := stateOf(r.Context())
+			st.ran = true
+			st.sawPrinc = principal
+			st.sawScopes = middleware.SecurityScopesFrom(r)
+			if middleware.SecurityPrincipalFrom(r) != principal {
+				st.sawPrinc = struct{ mismatch string }{"the principal handed to the handler differs from the one in the request context"}
+			}
+			rw.WriteHeader(http.StatusOK)
+		})
+	}
+	if e.key.wiring == wTypedRouter {
+		e.ctx = middleware.NewRoutableContextWithAnalyzedSpec(doc, analysis.New(doc.Spec()), t, middleware.DefaultRouter(doc, t))
+		e.h = e.ctx.APIHandler(nil)
+	} else {
+		e.ctx = middleware.NewRoutableContext(doc, t, nil)
+		e.h = e.ctx.RoutesHandler(nil)
+	}
+}
+
 // ---- requests ----
 
 // credentialLines renders the abstract outcome vector and authorizer choice as
 // request-target query and header lines.
 func credentialLines(mode uint8, out [nS]uint8, az uint8) (query string, headers string) {
 	var h strings.Builder
-	if mode == modeRaw {
+	if mode == modeRaw || mode == modeWrapped {
 		for s := 0; s < nS; s++ {
 			if out[s] != oNA {
 				fmt.Fprintf(&h, "X-Out-%s: %s\r\n", schemeName[s], outName[out[s]])
@@ -453,7 +672,11 @@ func credentialLines(mode uint8, out [nS]uint8, az uint8) (query string, headers
 		}
 	} else {
 		if out[0] != oNA {
-			fmt.Fprintf(&h, "X-K1: %s\r\n", outName[out[0]])
+			if mode == modeRealAlt || mode == modeRealAltPlain {
+				query = "k1key=" + outName[out[0]]
+			} else {
+				fmt.Fprintf(&h, "X-K1: %s\r\n", outName[out[0]])
+			}
 		}
 		if out[1] != oNA {
 			fmt.Fprintf(&h, "Authorization: Basic %s\r\n", base64.StdEncoding.EncodeToString([]byte("u:"+outName[out[1]])))
@@ -462,7 +685,10 @@ func credentialLines(mode uint8, out [nS]uint8, az uint8) (query string, headers
 			if out[1] == oNA {
 				fmt.Fprintf(&h, "Authorization: Bearer %s\r\n", outName[out[2]])
 			} else {
-				query = "access_token=" + outName[out[2]]
+				if query != "" {
+					query += "&"
+				}
+				query += "access_token=" + outName[out[2]]
 			}
 		}
 	}
@@ -646,5 +872,52 @@ func (e *env) execHandler(opIdx int, path string, k kase, owned bool) (o obs) {
 		return o
 	}
 	o.kind = obsOther
+	return o
+}
+
+// ---- driver 3: RouteAuthenticators.Authenticate called directly (exported; what Authorize builds on) ----
+// Mapping to the vocabulary of the reference (authorizer absent): a non-nil principal is an admission through the
+// alternative left in route.Authenticator; (true, nil, nil) with an anonymous alternative left there is the
+// anonymous admission; an error is that refusal; anything else is "no alternative applied".
+func (e *env) execAuthenticators(base *middleware.MatchedRoute, auths middleware.RouteAuthenticators, owned bool, baseReq *http.Request) (o obs) {
+	st := &state{}
+	o.orderOwned = owned
+	defer func() {
+		if p := recover(); p != nil {
+			o = obs{kind: obsPanic, msg: fmt.Sprint(p), orderOwned: owned}
+		}
+	}()
+	req := baseReq.WithContext(context.WithValue(baseReq.Context(), stKey{}, st))
+	m := *base
+	m.Authenticators = auths
+	m.Authenticator = nil
+	applies, usr, err := auths.Authenticate(req, &m)
+	o.authCalls = st.authCalls
+	switch {
+	case err != nil:
+		msg, code := err.Error(), 0
+		if ce, ok := err.(oaerrors.Error); ok {
+			code = int(ce.Code())
+		}
+		o.status, o.msg = code, msg
+		if t := tagOfMessage(msg); t > 0 {
+			o.kind, o.tag = obsRefused, t
+			if tagStatus[t] == 0 {
+				o.status = 0
+			}
+			return o
+		}
+		o.kind = obsOther
+		return o
+	case applies && (usr != nil || (m.Authenticator != nil && m.Authenticator.AllowsAnonymous())):
+		o.kind = obsRun
+		o.princ = princIndex(usr)
+		o.princCtx = o.princ
+		if m.Authenticator != nil {
+			o.scopes = fastCanon(m.Authenticator.AllScopes())
+		}
+		return o
+	}
+	o.kind, o.tag, o.status = obsRefused, tDefault, 401
 	return o
 }
